@@ -176,3 +176,95 @@ func countParams(R []string, k int, hv bool) int {
 	}
 	return countParams(R, k-1, hv) + paramWeight(R[k-1], hv)
 }
+
+// --- WebService root paths (C02, C03) ----------------------------------------
+
+// rootTokAdmits: a root-path token claims a URL segment: literals equal; a
+// variable needs a non-empty segment, and a regex variable only claims
+// segments that satisfy it.
+func rootTokAdmits(t, q string) bool {
+	if len(t) == 0 && len(q) == 0 {
+		return true
+	}
+	if isVarTok(t) {
+		if len(q) == 0 {
+			return false
+		}
+		if strings.Index(t, ":") >= 0 && !isTailTok(t) {
+			return rxMatch(regPartOf(t), q)
+		}
+		return true
+	}
+	return t == q
+}
+
+func wfRootTok(t string) bool {
+	if !isVarTok(t) {
+		return true
+	}
+	c := strings.Index(t, ":")
+	return c < 0 || (len(t) >= c+2 && strings.HasSuffix(t, "}"))
+}
+
+func wfRoot(T []string) bool {
+	return forall(0, len(T), func(k int) bool { return wfRootTok(T[k]) })
+}
+
+// rootAdmits: the root path's tokens claim the first len(T) segments of the URL.
+func rootAdmits(T, Q []string) bool {
+	return len(T) <= len(Q) && forall(0, len(T), func(k int) bool { return rootTokAdmits(T[k], Q[k]) })
+}
+
+// rootWeight / rootScore: literals weigh more than variables, earlier literals more than later ones.
+func rootWeight(T []string, i int) int {
+	if len(T[i]) > 0 && isVarTok(T[i]) {
+		return 1
+	}
+	if len(T[i]) == 0 {
+		return 1
+	}
+	return (len(T) - i) * 10
+}
+
+func rootScore(T []string, k int) int {
+	if k <= 0 {
+		return 0
+	}
+	return rootScore(T, k-1) + rootWeight(T, k-1)
+}
+
+// --- ranking of routes (C03) -------------------------------------------------
+
+// curlyBefore: x ranks before y — more static tokens, then more parameters, then the greater path.
+func curlyBefore(x, y curlyRoute) bool {
+	if y.staticCount != x.staticCount {
+		return y.staticCount < x.staticCount
+	}
+	if y.paramCount != x.paramCount {
+		return y.paramCount < x.paramCount
+	}
+	return y.route.Path < x.route.Path
+}
+
+// --- choice of the WebService (C02, C03) --------------------------------------
+
+func wfService(ws *WebService) bool {
+	return ws != nil && ws.pathExpr != nil && wfRoot(ws.pathExpr.tokens)
+}
+
+func svcAdmits(ws *WebService, Q []string) bool { return rootAdmits(ws.pathExpr.tokens, Q) }
+
+func svcScore(ws *WebService) int { return rootScore(ws.pathExpr.tokens, len(ws.pathExpr.tokens)) }
+
+// bestIdx: index of the admitted service with the greatest score among the
+// first n, the first one among equals; -1 if none is admitted.
+func bestIdx(W []*WebService, Q []string, n int) int {
+	if n <= 0 {
+		return -1
+	}
+	b := bestIdx(W, Q, n-1)
+	if svcAdmits(W[n-1], Q) && (b < 0 || svcScore(W[n-1]) > svcScore(W[b])) {
+		return n - 1
+	}
+	return b
+}
